@@ -54,6 +54,10 @@ CLAIMED = {
         text="Lean theorems: total route tables of the CPU/CUDA/MPS implementations with their preconditions, agreement of the integer, int8-packed and float kernels for every accumulator and scale, exact factorisation of the scales out of the contraction, explicit three-rounding error bound of one output element, "
              "output shape / batch flattening, int32 accumulator bound, counter-example for float8 x float8 in float16. Bit-exact correspondence of torch.nn.functional.linear on exact-arithmetic operand sets (all activation kinds x weight qtypes x dtypes x batch shapes x bias), kernels and route functions called directly with the route actually taken observed; realistic magnitudes against a float64 reference inside the accumulation envelope (validated, not proved).",
         design="6/C07", technique="Lean 4 proof (decision tables + exact arithmetic + rounding bounds) + bit-exact correspondence on exact-arithmetic operand sets"),
+    "C12": dict(
+        text="Lean theorems over all batch histories and momenta: the code's update equals the exponential moving average initialised by the first batch whenever no intermediate value equals the sentinel 1 (counter-example theorem for the sentinel), adoption of a quantized input's scale, first-batch and momentum-0 laws, single-batch non-saturation from C03. "
+             "The float arithmetic of the update (scalar cast to float32, 1-m in double) is modelled bit-exactly; per-batch ranges recorded by harness hooks are folded by the model and compared with the module buffers bit for bit, for both scales, three dtypes and activation qtypes, chained modules, several contexts, streamline on/off.",
+        design="6/C12", technique="Lean 4 proof by induction over histories + bit-exact correspondence of recorded histories"),
 }
 
 NOT_YET = "check not yet built in this round (build in progress; see DESIGN.md build order)"
